@@ -6,7 +6,10 @@
    (D) termination estimates within [0,1]                        -> C18_estimate_*
    (E) variation criterion fires iff cv of every objective <= thr -> C18_min_variation_*
    Over f64 (not exact arithmetic) the hull clause of (A) and finiteness in (C) fail: C18_float_*_refuted (witnesses on the
-   primitive-float twin); the other f64 invariants are validated on every run, not proved. *)
+   primitive-float twin).
+   (F) at the end of the file: the f64 level of (A)/(B), proved for the primitive-float twin (= what the Rust code computes, bit for
+   bit) for every finite prior and reward of magnitude <= 2^480 and at most 2^52 updates -> C18_float_alpha_exact, _beta_valid,
+   _beta_monotone, _state_valid, _sampler_arguments_valid, _mean_near_hull; outside those bounds they fail (_refuted witnesses). *)
 From Coq Require Import QArith Qabs Qminmax Floats.
 From VRP Require Import Base.Tac Base.TotalCmp Model.SlotQ Model.SlotF Model.Reward Model.Termination.
 From VRP Require Import Proofs.SlotQP Proofs.SlotFP Proofs.RewardP Proofs.TerminationP.
@@ -128,3 +131,114 @@ Theorem C18_nonvacuous_float_twin :
   bits_of_f (f_mu (fslot_run (f_of_bits 4607182418800017408) [f_of_bits 4602678819172646912; f_of_bits 4604930618986332160]))
   = 4603804719079489536%Z.
 Proof. exact float_twin_example. Qed.
+
+(* ---------------- (F) the same invariants over IEEE-754 binary64: theorems about the primitive-float twin ----------------
+   `B2R (Prim2B x)` is the real number denoted by the finite float x (Flocq); `PrimFloat.is_finite x = true` excludes NaN and
+   infinities.  Hypotheses are executable float comparisons: `(abs r <=? 0x1p480) = true` says r is finite (not NaN, not inf)
+   with |r| <= 2^480.  These theorems depend on the standard library's classical axioms of the reals and on the primitive
+   float / 63-bit integer specification (Coq.Floats.FloatAxioms, Uint63), listed by Print Assumptions; nothing else. *)
+From Coq Require Import Reals.
+From Flocq Require Import Core.Core IEEE754.BinarySingleNaN IEEE754.PrimFloat.
+From VRP Require Import Proofs.SlotFloatP.
+
+(* alpha is computed without any rounding: its value is exactly 1 + n/2; finite and positive (any prior, any rewards - even NaN) *)
+Theorem C18_float_alpha_exact : forall (prior : PrimFloat.float) (rs : list PrimFloat.float),
+  (Z.of_nat (length rs) <= 2 ^ 52)%Z ->
+  let a := f_alpha (fslot_run prior rs) in
+  PrimFloat.is_finite a = true /\ B2R (Prim2B a) = (1 + INR (length rs) / 2)%R /\ (0 <? a)%float = true.
+Proof. exact float_alpha_exact. Qed.
+(* beta: finite, >= 10, at most (n+1) * 2^963; scale = 1/beta handed to Gamma::new is finite and > 0 *)
+Theorem C18_float_beta_valid : forall (prior : PrimFloat.float) (rs : list PrimFloat.float),
+  (Z.of_nat (length rs) <= 2 ^ 52)%Z ->
+  (abs prior <=? 0x1p480)%float = true -> Forall (fun r => (abs r <=? 0x1p480)%float = true) rs ->
+  let b := f_beta (fslot_run prior rs) in
+  PrimFloat.is_finite b = true /\ (10 <=? b)%float = true /\
+  (B2R (Prim2B b) <= (INR (length rs) + 1) * bpow radix2 963)%R /\
+  PrimFloat.is_finite (1 / b)%float = true /\ (0 <? 1 / b)%float = true.
+Proof. exact float_beta_valid. Qed.
+(* beta never decreases along a run (every prefix of a bounded history is a bounded history) *)
+Theorem C18_float_beta_monotone : forall (prior : PrimFloat.float) (rs : list PrimFloat.float) (r : PrimFloat.float),
+  (Z.of_nat (length (rs ++ [r])) <= 2 ^ 52)%Z ->
+  (abs prior <=? 0x1p480)%float = true -> Forall (fun x => (abs x <=? 0x1p480)%float = true) (rs ++ [r]) ->
+  (f_beta (fslot_run prior rs) <=? f_beta (fslot_run prior (rs ++ [r])))%float = true.
+Proof. exact float_beta_monotone. Qed.
+(* the whole state: counter exact, no NaN / infinity anywhere, 0 < v <= beta, |mu| <= 2^480 (1 + 2^-52) *)
+Theorem C18_float_state_valid : forall (prior : PrimFloat.float) (rs : list PrimFloat.float),
+  (Z.of_nat (length rs) <= 2 ^ 52)%Z ->
+  (abs prior <=? 0x1p480)%float = true -> Forall (fun r => (abs r <=? 0x1p480)%float = true) rs ->
+  let s := fslot_run prior rs in
+  f_n s = length rs /\
+  PrimFloat.is_finite (f_alpha s) = true /\ PrimFloat.is_finite (f_beta s) = true /\
+  PrimFloat.is_finite (f_mu s) = true /\ PrimFloat.is_finite (f_v s) = true /\
+  (0 <? f_v s)%float = true /\ (f_v s <=? f_beta s)%float = true /\
+  (abs (f_mu s) <=? 0x1.0000000000001p480)%float = true.
+Proof. exact float_state_valid. Qed.
+(* sample(): Gamma::new(shape, scale) needs shape > 0, scale > 0; Normal::new(mean, sd) needs sd finite (rand_distr 0.4.3).
+   Valid before the first update for ANY value g of the gamma draw, and later for g = +-0 (guard) or finite g >= 2^-1022
+   (hypothesis on rand_distr's Gamma: it returns a finite non-negative number); the division 1/precision is never by zero *)
+Theorem C18_float_sampler_arguments_valid : forall (prior : PrimFloat.float) (rs : list PrimFloat.float) (g : PrimFloat.float),
+  (Z.of_nat (length rs) <= 2 ^ 52)%Z ->
+  (abs prior <=? 0x1p480)%float = true -> Forall (fun r => (abs r <=? 0x1p480)%float = true) rs ->
+  rs = [] \/ ((g =? 0) || (PrimFloat.is_finite g && (0x1p-1022 <=? g)))%float = true ->
+  exists shape scale mean sd, fsample_args (fslot_run prior rs) g = [shape; scale; mean; sd] /\
+    PrimFloat.is_finite shape = true /\ (0 <? shape)%float = true /\
+    PrimFloat.is_finite scale = true /\ (0 <? scale)%float = true /\
+    PrimFloat.is_finite mean = true /\
+    PrimFloat.is_finite sd = true /\ (0 <=? sd)%float = true.
+Proof. exact float_sampler_valid. Qed.
+(* ... and the restriction on g is needed: a positive draw below 2^-1024 (here 5e-324, after one update) gives
+   variance = 1/g = +inf and sd = +inf, which Normal::new rejects *)
+Theorem C18_float_sampler_tiny_gamma_refuted :
+  let s := fslot_run (f_of_bits 4607182418800017408) [f_of_bits 4607182418800017408] in
+  ((f_of_bits 1 =? 0) || (PrimFloat.is_finite (f_of_bits 1) && (0x1p-1022 <=? f_of_bits 1)))%float = false /\
+  bits_of_f (nth 3 (fsample_args s (f_of_bits 1)) 0%float) = 9218868437227405312%Z.
+Proof. exact float_sampler_tiny_gamma. Qed.
+(* ... and so is the bound on the rewards: one finite reward 2^512 (prior 0) makes (reward - mu)^2 overflow, the term is 0 * inf,
+   beta and scale are NaN *)
+Theorem C18_float_unbounded_reward_refuted :
+  let s := fslot_run 0%float [0x1p512%float] in
+  (abs 0x1p512 <=? 0x1p480)%float = false /\ PrimFloat.is_finite 0x1p512%float = true /\
+  bits_of_f (f_beta s) = (-1)%Z /\ PrimFloat.is_nan (f_beta s) = true /\ (0 <? 1 / f_beta s)%float = false.
+Proof. exact float_beta_nan_beyond_bound. Qed.
+(* the f64 mean stays within one rounding step of the hull: if prior and rewards are finite, of magnitude <= 2^m, and lie between
+   two floats L, H (|L|, |H| <= 2^(m+1)) with a margin of 2^(m-52) = 2^-52 * 2^m for the rewards, then so does every later mean
+   (complements C18_float_mean_in_hull_refuted: without the margin it fails) *)
+Theorem C18_float_mean_near_hull : forall (m : Z) (L H prior : PrimFloat.float) (rs : list PrimFloat.float),
+  (-1022 <= m <= 1020)%Z -> (Z.of_nat (length rs) <= 2 ^ 52)%Z ->
+  PrimFloat.is_finite L = true -> PrimFloat.is_finite H = true ->
+  (- (2 * bpow radix2 m) <= B2R (Prim2B L))%R -> (B2R (Prim2B H) <= 2 * bpow radix2 m)%R ->
+  PrimFloat.is_finite prior = true -> (B2R (Prim2B L) <= B2R (Prim2B prior) <= B2R (Prim2B H))%R ->
+  Forall (fun r => PrimFloat.is_finite r = true /\ (Rabs (B2R (Prim2B r)) <= bpow radix2 m)%R /\
+                   (B2R (Prim2B L) + bpow radix2 (m - 52) <= B2R (Prim2B r) <= B2R (Prim2B H) - bpow radix2 (m - 52))%R) rs ->
+  let mu := f_mu (fslot_run prior rs) in
+  PrimFloat.is_finite mu = true /\ (B2R (Prim2B L) <= B2R (Prim2B mu) <= B2R (Prim2B H))%R.
+Proof. exact float_mean_near_hull. Qed.
+(* instance with executable hypotheses: prior and rewards in [1, 2] -> mean in [1 - 2^-51, 2 + 2^-51] *)
+Theorem C18_float_mean_in_1_2 : forall (prior : PrimFloat.float) (rs : list PrimFloat.float),
+  (Z.of_nat (length rs) <= 2 ^ 52)%Z ->
+  ((1 <=? prior) && (prior <=? 2))%float = true -> Forall (fun r => ((1 <=? r) && (r <=? 2))%float = true) rs ->
+  let mu := f_mu (fslot_run prior rs) in
+  PrimFloat.is_finite mu = true /\ (0x1.ffffffffffffcp-1 <=? mu)%float = true /\ (mu <=? 0x1.0000000000001p1)%float = true.
+Proof. exact float_mean_in_1_2. Qed.
+(* non-vacuity of the hypotheses of (F): an extreme admissible history, admissible / inadmissible draws, a history in [1, 2] *)
+Theorem C18_nonvacuous_float_bounds :
+  let prior := 0x1p480%float in
+  let rs := [(- 0x1p480)%float; 0x1p480%float; 0x1p-1%float] in
+  (abs prior <=? 0x1p480)%float = true /\ Forall (fun r => (abs r <=? 0x1p480)%float = true) rs /\
+  (Z.of_nat (length rs) <= 2 ^ 52)%Z /\
+  ((0 =? 0) || (PrimFloat.is_finite 0 && (0x1p-1022 <=? 0)))%float = true /\ (((- 0) =? 0) || (PrimFloat.is_finite (- 0) && (0x1p-1022 <=? (- 0))))%float = true /\
+  ((0x1p-1022 =? 0) || (PrimFloat.is_finite 0x1p-1022 && (0x1p-1022 <=? 0x1p-1022)))%float = true /\
+  ((0x1p+1023 =? 0) || (PrimFloat.is_finite 0x1p+1023 && (0x1p-1022 <=? 0x1p+1023)))%float = true /\
+  ((0x1p-1074 =? 0) || (PrimFloat.is_finite 0x1p-1074 && (0x1p-1022 <=? 0x1p-1074)))%float = false /\ ((nan =? 0) || (PrimFloat.is_finite nan && (0x1p-1022 <=? nan)))%float = false /\
+  ((infinity =? 0) || (PrimFloat.is_finite infinity && (0x1p-1022 <=? infinity)))%float = false /\ (((- 1) =? 0) || (PrimFloat.is_finite (- 1) && (0x1p-1022 <=? (- 1))))%float = false /\
+  (abs infinity <=? 0x1p480)%float = false /\ (abs nan <=? 0x1p480)%float = false /\
+  bits_of_f (f_alpha (fslot_run prior rs)) = 4612811918334230528%Z /\
+  PrimFloat.is_finite (f_beta (fslot_run prior rs)) = true /\ (0x1p960 <=? f_beta (fslot_run prior rs))%float = true.
+Proof. exact float_hypotheses_satisfiable. Qed.
+Theorem C18_nonvacuous_float_mean_in_1_2 :
+  let prior := 1%float in
+  let rs := [0x1.8p0%float; 0x1.4p0%float; 2%float; 1%float] in
+  ((1 <=? prior) && (prior <=? 2))%float = true /\ Forall (fun r => ((1 <=? r) && (r <=? 2))%float = true) rs /\
+  (Z.of_nat (length rs) <= 2 ^ 52)%Z /\
+  bits_of_f (f_mu (fslot_run prior rs)) = 4609152743636992000%Z.
+Proof. exact float_mean_in_1_2_satisfiable. Qed.
